@@ -15,6 +15,7 @@ from . import values as V
 from .engine import Config, Explorer, PathEnd, PyRaise, SExc, State
 from .interp import FnVal, Frame, Interp, LoopSpec
 from .seqs import DRef, LRef, SObj, View
+from .text import SText, TextShape as Text  # noqa: F401
 from .shapes import Atom, Bool, Const, Custom, Enum, Int, ListOf, Nat, Obj, Opaque, Opt, Slice, Tup, TupleOf, Union  # noqa: F401
 from .values import (  # noqa: F401
     SBool,
@@ -137,6 +138,13 @@ class Contract:
         if self.self_shape is not None:
             first = (f.ref.node.args.posonlyargs + f.ref.node.args.args)[0].arg
             self_obj = vals.pop(first)
+        gl = getattr(self, "globals_", None)
+        if gl:
+            have = st.ghost.setdefault("globals", {})
+            for k, shp in gl.items():
+                if k not in have:
+                    have[k] = shp.fresh(st, k)
+                vals[f"g_{k}"] = have[k]
         a = View(vals)
         where = f"call-pre@{f.ref.qualname}:{(site or '').split(':')[-1]}"
         pre = self.requires(self_obj, a) if self_obj is not None else self.requires(a)
@@ -260,7 +268,7 @@ def contract(target, property=None, **kw):  # noqa: A002
         ns.update(kw)
         ns["target"] = target
         ns["property"] = property
-        for fn in ("requires", "ensures", "on_raise", "pure_spec", "native_call", "make_self", "observe", "effects", "invariant", "ensures_callee", "setup", "call_real", "missing_field"):
+        for fn in ("requires", "ensures", "on_raise", "pure_spec", "native_call", "make_self", "observe", "effects", "invariant", "ensures_callee", "setup", "call_real", "missing_field", "comprehension_sum", "decode_model"):
             if fn in ns and inspect.isfunction(ns[fn]):
                 ns[fn] = staticmethod(ns[fn])
         C = type(cls.__name__, (Contract,), ns)
@@ -444,6 +452,10 @@ class VerifyTask:
         c = self.c
         ip = Interp(self)
         self_obj, vals = self.make_inputs(st)
+        gl = getattr(c, "globals_", None)
+        if gl:
+            st.ghost["globals"] = {k: shp.fresh(st, k) for k, shp in gl.items()}
+            vals.update({f"g_{k}": v for k, v in st.ghost["globals"].items()})
         setup = getattr(c, "setup", None)
         if setup is not None:
             setup(st, self_obj, vals)
@@ -467,7 +479,7 @@ class VerifyTask:
         f = FnVal(self.ref, None, None, self.defcls())
         f.top_level = True
         args = ([self_obj] if self_obj is not None else []) + []
-        kwargs = dict(vals)
+        kwargs = {k: v for k, v in vals.items() if not k.startswith("g_")}
         # positional binding by parameter name
         try:
             result = ip.run_function(st, f, args, kwargs)
